@@ -77,7 +77,23 @@ def render(desc, sd, idx, k, dt, req, tmax, interval, policy):
         ts = st.UnitArray([float(x / float(si.TIME[own])) for x in req], own)
     script = st.RDScript(system=system, t_sample=ts, time_step=tq(dt), t_max=tq(tmax), sampling_policy=policy,
                          sampling_interval=tq(interval), rng_seed=1, units_system=st.UnitsSystem(**si.sys_dict(usys)))
-    return script, {"form": form, "script_units": usys, "levels": {k_: v for k_, v in list(rd.log.items())[:5]}, "all_systems": all_systems}
+    rewrite = None
+    if r.random() < 0.4 and "system" in rd.log:
+        # the state written again as bare numbers on the script's own system (a copy of the one built): bare numbers are read
+        # in the units system declared at system level, which every copy of the system carries with it
+        sysu = rd.log["system"]
+        stt = gen.state_of(desc)
+        if r.random() < 0.5:
+            script.system.state = [gen.q_bare(x, sysu, gen.Q_DIM) for x in stt]
+            rewrite = "state = [bare numbers]"
+        else:
+            S_, n_ = len(desc["species"]), gen.ncells(desc["space"])
+            for s_ in range(S_):
+                for i_ in range(n_):
+                    script.system.set_state(s_, i_, gen.q_bare(stt[s_ * n_ + i_], sysu, gen.Q_DIM))
+            rewrite = "set_state(bare number) on every entry"
+    return script, {"form": form, "script_units": usys, "levels": {k_: v for k_, v in list(rd.log.items())[:5]}, "all_systems": all_systems,
+                    "state_rewritten": rewrite}
 
 
 def to_si_state(ua):
@@ -329,6 +345,12 @@ def main():
             run.count(k, n_)
         for b in v["bad"]:
             run.violation(b["what"][:80], b, mech={"what": b["what"]})
+    # objects built with default arguments do not share them (vf/history.py: h_default_isolation)
+    from vf.sandbox import run_extra as _rx
+    from vf.common import seed as _sd0, tier as _tr0
+    _w = ['reaction', 'species', 'network', 'grid', 'graphnode', 'system', 'script']
+    _rx(run, "vf.history:h_default_isolation", [{"seed": _sd0(), "idx": _i, "which": _w[_i % len(_w)]} for _i in range(1400 if _tr0() == "thorough" else 140)],
+        cpu_budget=60, kind_prefix="history: ")
     return run.finish()
 
 
